@@ -41,6 +41,8 @@ impl<'a> UnixRecvFrom<'a> {
             self.io_data.io_flag.store(0, Ordering::Relaxed);
 
             match self.socket.recv_from(self.buf) {
+                #[cfg(may_verif)]
+                ref r if crate::verif::sys(&self.io_data.io_flag, "sys.recv_from", r) => unreachable!(),
                 Ok(n) => return Ok(n),
                 Err(e) => {
                     // raw_os_error is faster than kind
